@@ -161,3 +161,93 @@ def stream_input(rng, allow_error=True, force_long=None, force_no_newline=False)
         elif e < 0.3:
             t.append("SOLUTION 5\n -bogus_option 3\n pH 7\nEND\n")   # warning or error on unknown option
     return "".join(t), users
+
+
+# ---------------------------------------------------------------------------------------------------------------
+# multi-call histories with DIFFERENT inputs (C05/C09 round 2): definitions, switches and files persist between calls
+POOL = [1, 2, 3, 5, 10]
+
+
+def _react(rng, sols):
+    k = rng.random()
+    s = rng.choice(sols)
+    if k < 0.4:
+        return "USE solution %d\nREACTION 1\n NaCl 1\n %s moles in %d steps\n" % (s, rng.choice(["0.1", "0.01"]), rng.randint(1, 3))
+    if k < 0.7:
+        return "USE solution %d\nEQUILIBRIUM_PHASES 1\n %s 0 %s\n" % (s, rng.choice(MINERALS[:6]), rng.choice(["10", "0", "1"]))
+    return "MIX 1\n %d 0.5\n %d 0.5\n" % (s, s)
+
+
+def history(rng, ncalls=None, allow_error=True):
+    """list of input texts for consecutive Run* calls on one instance. The calls differ: definitions of SELECTED_OUTPUT /
+    USER_PUNCH are made once and then persist, are redefined in later calls or in later simulations of a call, PRINT
+    -selected_output toggles, calls with several simulations, calls stopped by an error, DUMP (with -append) calls."""
+    ncalls = ncalls or rng.randint(2, 5)
+    calls, kinds = [], []
+    defined, sols, nsol = [], [], 0
+    for k in range(ncalls):
+        t = []
+        r = rng.random()
+        if k == 0 or (not defined and r < 0.7):
+            kind = "define"
+        elif r < 0.30:
+            kind = "plain"
+        elif r < 0.45:
+            kind = "redef"
+        elif r < 0.55:
+            kind = "userpunch"
+        elif r < 0.65:
+            kind = "print"
+        elif r < 0.78:
+            kind = "late-block"
+        elif r < 0.86 and allow_error:
+            kind = "error"
+        elif r < 0.93:
+            kind = "dump"
+        else:
+            kind = "define"
+        kinds.append(kind)
+        if rng.random() < 0.15:
+            t.append("TITLE call %d\n" % k)
+        if rng.random() < 0.12:
+            t.append("KNOBS\n -logfile %s\n" % rng.choice(["true", "false"]))
+        nsol += 1
+        sols.append(nsol)
+        t.append(solution(rng, nsol))
+        if kind == "define":
+            for u in sorted(rng.sample(POOL, rng.choice([1, 2, 2, 3, 4]))):
+                t.append(selected_output(rng, u))
+                if u not in defined:
+                    defined.append(u)
+                if rng.random() < 0.5:
+                    t.append(user_punch(rng, u))
+        elif kind == "redef" and defined:
+            for u in rng.sample(defined, rng.randint(1, min(2, len(defined)))):
+                t.append(selected_output(rng, u))
+                if rng.random() < 0.4:
+                    t.append(user_punch(rng, u))
+        elif kind == "userpunch" and defined:
+            t.append(user_punch(rng, rng.choice(defined)))
+        elif kind == "print":
+            t.append("PRINT\n -selected_output %s\n" % rng.choice(["false", "false", "true"]))
+        elif kind == "dump":
+            t.append("DUMP\n -solution %d\n" % rng.choice(sols) + (" -append %s\n" % rng.choice(["true", "false"]) if rng.random() < 0.5 else ""))
+        t.append("END\n")
+        if kind == "late-block":
+            u = rng.choice(POOL)
+            t.append(selected_output(rng, u))
+            if u not in defined:
+                defined.append(u)
+            if rng.random() < 0.4:
+                t.append(user_punch(rng, u))
+            t.append(_react(rng, sols) + "END\n")
+        elif kind == "error":
+            t.append(rng.choice(["USE solution 777\nEND\n", "SOLUTION 900\n pH 7\n Xx 1\nEND\n",
+                                 "EQUILIBRIUM_PHASES 1\n NoSuchPhase 0 1\nUSE solution %d\nEND\n" % sols[0]]))
+        for _ in range(rng.choice([0, 0, 1, 1, 2])):
+            t.append(_react(rng, sols))
+            if rng.random() < 0.1:
+                t.append("PRINT\n -selected_output %s\n" % rng.choice(["true", "false"]))
+            t.append("END\n")
+        calls.append("".join(t))
+    return calls, kinds
